@@ -259,7 +259,11 @@ def gen_co2(rng, profile, spec):
     y0 = parse_date(spec["start"]).year
     y1 = parse_date(spec["end"]).year
     base = rng.choice([280.0, 360.0, 420.0, 600.0])
-    series = [[y, round(base + 2.5 * (y - y0) + rng.uniform(-1, 1), 2)] for y in range(y0 - 1, y1 + 2)]
+    # annual record, or a sparse one (a value every 3 / 5 / 10 years, as in scenario tables): the model interpolates in time
+    step = rng.choice(_p(profile, "co2_series_steps", [1, 1, 3, 5, 10]))
+    first = y0 - 1 - rng.randrange(step)
+    years = list(range(first, y1 + 2 + step + _p(profile, "co2_series_extra_years", 0), step))
+    series = [[y, round(base + 2.5 * (y - y0) + rng.uniform(-1, 1), 2)] for y in years]
     return {"series": series}
 
 
